@@ -7,13 +7,67 @@ EXPLANATION = ("Effect contracts (ghost sets of written / removed paths, ghost s
                "and of the annotate callback (every file of the invocation is processed whatever happened to the others, exit "
                "status 0 or 1, usage errors before any effect).")
 
-FUNCTIONS = ["reuse._annotate.add_header_to_file", "reuse.cli.annotate.all_paths", "reuse.cli.annotate.annotate"]
+FUNCTIONS = ["reuse._annotate.add_header_to_file", "reuse.cli.annotate.all_paths", "reuse.cli.annotate.annotate",
+             "reuse.cli.annotate.verify_paths_line_handling", "reuse.cli.annotate.verify_paths_comment_style"]
+
+
+def failing_subsets(tier):
+    """invocations over several files of which some fail for an anticipated reason, in every position; tree compared"""
+    import itertools
+    from pyvc.driver import Bounded
+    from props.annot import Sandbox, TEMPLATES
+    failures, cases = [], 0
+    body = "zz BODY1\n"
+    scenarios = [
+        # (label, files, extra args, holder, expected exit, names that must stay untouched, names that must change)
+        ("holder contains the terminator of one file's style", {"ok1.py": body, "bad.html": body, "ok2.py": body}, [], "Jane --> Doe", 1, ["bad.html"], ["ok1.py", "ok2.py"]),
+        ("holder contains the terminator, two failing files", {"bad1.html": body, "ok.py": body, "bad2.xml": body}, [], "Jane --> Doe", 1, ["bad1.html", "bad2.xml"], ["ok.py"]),
+        ("information-dropping template", {"a.py": body, "b.c": body, **TEMPLATES}, ["--template", "nolicence"], "Jane", 1, ["a.py", "b.c"], []),
+        ("unsupported --single-line for one file", {"a.py": body, "page.css": body, "b.py": body}, ["--single-line"], "Jane", 2, ["a.py", "page.css", "b.py"], []),
+        ("unsupported --multi-line for one file", {"a.c": body, "script.py": body, "b.c": body}, ["--multi-line"], "Jane", 2, ["a.c", "script.py", "b.c"], []),
+        ("unrecognised extension, no fallback", {"a.py": body, "data.unknownext": body, "b.py": body}, [], "Jane", 2, ["a.py", "data.unknownext", "b.py"], []),
+        ("mutually exclusive options", {"a.py": body, "b.py": body}, ["--single-line", "--multi-line"], "Jane", 2, ["a.py", "b.py"], []),
+        ("mutually exclusive year options", {"a.py": body}, ["--year", "2000", "--exclude-year"], "Jane", 2, ["a.py"], []),
+        ("unrecognised extension with --skip-unrecognised", {"a.py": body, "data.unknownext": body}, ["--skip-unrecognised"], "Jane", 0, ["data.unknownext"], ["a.py"]),
+    ]
+    for label, files, extra, holder, want_exit, untouched, changed in scenarios:
+        targets = [f for f in files if not f.startswith(".reuse/")]
+        orders = list(itertools.permutations(targets)) if tier == "thorough" or len(targets) <= 3 else [tuple(targets)]
+        for order in orders:
+            for seed in (["0", "1", "3"] if tier == "thorough" else ["0"]):
+                cases += 1
+                with Sandbox(files) as sb:
+                    before = sb.snapshot()
+                    code, out, crash = sb.annotate(extra + ["--copyright", holder, "--license", "MIT"] + list(order))
+                    after = sb.snapshot()
+                    case = {"scenario": label, "order": list(order), "args": extra, "holder": holder}
+                    problem = None
+                    if crash:
+                        problem = f"crash: {crash}"
+                    elif code != want_exit:
+                        problem = f"exit status {code}, expected {want_exit}: {out[-200:]}"
+                    else:
+                        created = sorted(set(after) - set(before))
+                        if created:
+                            problem = f"files created: {created}"
+                        for f in untouched:
+                            if after.get(f) != before.get(f):
+                                problem = f"{f} was modified although it {'could not be annotated' if want_exit == 1 else 'must not be touched'}"
+                        for f in changed:
+                            if after.get(f) == before.get(f):
+                                problem = f"{f} was not processed although another file of the invocation failed"
+                    if problem:
+                        failures.append(dict(case, problem=problem, replayed=True))
+    return Bounded("failing-subsets", f"{len(scenarios)} invocations over 1-3 files with a failing subset (terminator in the holder, information-dropping "
+                   "template, unsupported --single-line / --multi-line, unrecognised extension, exclusive options) in every argument order; "
+                   "whole tree compared before and after", cases, failures[:10], "real `reuse annotate` through click's CliRunner")
 
 
 def run(ctx):
-    e = engine(ctx, modules=("contracts.report", "contracts.cli", "contracts.annotate"))
+    e = engine(ctx, modules=("contracts.report", "contracts.cli", "contracts.annotate", "contracts.annotate_usage"))
     verify_all(ctx, e, FUNCTIONS)
     assumed_contracts(ctx, e, "C11")
+    ctx.bounded.append(failing_subsets(ctx.tier))
     ctx.assume("header construction (find_and_replace_header / add_new_header) fails only with CommentCreateError or "
                "MissingReuseInfoError and has no file-system effect (C07-C10)")
     ctx.assume("click runs MutexOption.handle_parse_result for every parameter before the callback (usage errors of option parsing)")
